@@ -10,3 +10,8 @@ package protoutil
 //@   pure
 //@   ensures nil: src == nil ==> len(result) == 0
 //@   ensures len: src != nil ==> len(result) == len(src.Values)
+
+// NewListFromStrings builds a fresh list value; it only reads its argument.
+//@ func NewListFromStrings
+//@   property C02
+//@   pure
